@@ -313,8 +313,11 @@ def li_value(mine):
 
 
 def prog_input(prog):
-    return {'source': prog['source'], 'compress': prog.get('compress', False), 'meta': prog.get('meta', []),
-            'scenario': prog.get('scenario')}
+    d = {'source': prog['source'], 'compress': prog.get('compress', False), 'meta': prog.get('meta', []),
+         'scenario': prog.get('scenario')}
+    if prog.get('labels') is not None:
+        d['labels'] = prog['labels']
+    return d
 
 
 def norm_dec(d):
@@ -623,8 +626,10 @@ def replay(ctx, prop, rec):
         a = ctx.spec.batch(['x16 {}'.format(int.from_bytes(b, 'little')), 'x16 {}'.format(inp['halfword'])])
         return norm_dec(a[0].split()) != norm_dec(a[1].split())
     prog = {'source': inp['source'], 'meta': inp.get('meta') or [], 'scenario': inp.get('scenario')}
-    ru = pipeline.run_real(asm, prog['source'], False)
-    rc = pipeline.run_real(asm, prog['source'], True)
+    if inp.get('labels') is not None:
+        prog['labels'] = inp['labels']
+    ru = pipeline.run_real(asm, prog['source'], False, labels=prog.get('labels'))
+    rc = pipeline.run_real(asm, prog['source'], True, labels=prog.get('labels'))
     if prop in ('C03', 'C08', 'C09'):
         for real, c in ((ru, False), (rc, True)):
             if real['status'] != 'OK':
@@ -648,6 +653,40 @@ def make_programs(ctx, n, seed_off=0):
     for k, (src, meta) in enumerate(gen_programs.scenarios(rng, max(2 * gen_programs.NSCEN, n // 3))):
         progs.append({'source': src, 'meta': meta, 'scenario': k % gen_programs.NSCEN})
     return progs
+
+
+def label_names(src):
+    out = []
+    for l in src.split('\n'):
+        t = l.split('#')[0].strip()
+        if t.endswith(':') and len(t.split()) == 1 and t[:-1] not in out:
+            out.append(t[:-1])
+    return out
+
+
+def preseeded_variants(ctx, base):
+    """The `labels` argument may be a dictionary the caller kept from an earlier run: it then already holds (some of) the
+    program's label names -- in ANOTHER order and with stale values -- and names the program does not define.  The table the
+    assembler leaves in it must be exact all the same (a key that is assigned again keeps its old place in the dictionary, so the
+    order of the dictionary is no longer the order of the layout)."""
+    rng = random.Random(ctx.seed * 65537 + 11)
+    out = []
+    for k, p in enumerate(base):
+        if k % 5:
+            continue
+        names = label_names(p['source'])
+        if len(names) < 2:
+            continue
+        mode = rng.randrange(3)
+        order = list(reversed(names)) if mode == 0 else rng.sample(names, len(names)) if mode == 1 else names[1::2] + names[0::2][:1]
+        labels = {}
+        if rng.random() < 0.5:
+            labels['zz_kept'] = 64
+        for n in order:
+            labels[n] = rng.choice([0, 2, 4, 6, 1000, 123456])
+        labels['zz_other'] = 4096
+        out.append(dict(p, labels=labels))
+    return out
 
 
 def align_programs(ctx):
@@ -682,11 +721,13 @@ def explore(ctx, prop):
     base = make_programs(ctx, n)
     if prop == 'C09':
         base = align_programs(ctx) + base
+    base = base + preseeded_variants(ctx, base)
     progs = []
     for p in base:
         progs.append(dict(p, compress=False))
         progs.append(dict(p, compress=True))
     ctx.count('programs', len(progs))
+    ctx.count('programs-with-preseeded-labels', sum(1 for p in progs if p.get('labels') is not None))
     reals = pipeline.correspond(ctx, asm, progs)
     if not ctx.spec.available():
         ctx.corr('bbspec unavailable', {}, None, None)
